@@ -396,7 +396,7 @@ func (w *World) nodesD(g *FG, ev Ev, must bool, depth int) []bool {
 			continue
 		case *ssa.RunDefers:
 			for _, d := range g.defers {
-				if !does(g.ins[d]) {
+				if !w.deferDoes(g.ins[d].(*ssa.Defer), ev, must, depth, does) {
 					continue
 				}
 				if must {
@@ -414,6 +414,68 @@ func (w *World) nodesD(g *FG, ev Ev, must bool, depth int) []bool {
 		}
 	}
 	return out
+}
+
+// recoverEdges returns the edges of fn on which `recover() != nil` holds: they are taken only
+// when the deferred function runs because of a panic.
+func (w *World) recoverEdges(g *FG) []Edge {
+	pos, _ := g.CondEdges(func(v ssa.Value) (bool, bool) {
+		b, ok := v.(*ssa.BinOp)
+		if !ok {
+			return false, false
+		}
+		for _, pair := range [][2]ssa.Value{{b.X, b.Y}, {b.Y, b.X}} {
+			if _, isRec := isBuiltinCall(pair[0], "recover"); isRec {
+				if k, ok := pair[1].(*ssa.Const); ok && k.IsNil() {
+					return b.Op == token.NEQ, b.Op == token.NEQ || b.Op == token.EQL
+				}
+			}
+		}
+		return false, false
+	})
+	return pos
+}
+
+// deferDoes decides whether a deferred call performs ev when it runs at a NORMAL exit:
+// the part of a deferred closure guarded by recover() != nil runs on panic exits only.
+func (w *World) deferDoes(d *ssa.Defer, ev Ev, must bool, depth int, does func(ssa.Instruction) bool) bool {
+	mc, ok := d.Call.Value.(*ssa.MakeClosure)
+	if !ok {
+		return does(d)
+	}
+	f, ok := mc.Fn.(*ssa.Function)
+	if !ok || f.Blocks == nil {
+		return does(d)
+	}
+	g := w.FG(f)
+	rec := w.recoverEdges(g)
+	if len(rec) == 0 {
+		return does(d)
+	}
+	if ev.M(d) {
+		return true
+	}
+	cut := map[Edge]bool{}
+	for _, e := range rec {
+		cut[e] = true
+	}
+	nodes := w.nodesD(g, ev, must, depth+1)
+	if must {
+		r := g.reach(g.entry(), nodes, cut)
+		for _, x := range g.returns {
+			if r[x] {
+				return false
+			}
+		}
+		return true
+	}
+	r := g.reach(g.entry(), nil, cut)
+	for i, b := range nodes {
+		if b && r[i] {
+			return true
+		}
+	}
+	return false
 }
 
 func (w *World) mustDo(fn *ssa.Function, ev Ev, depth int) bool {
